@@ -467,6 +467,7 @@ pub struct Driver<'a> {
     pub max_steps: usize,
     pub finished_body_write_calls: usize,
     pub direct_writes: usize,
+    looked_after_100: bool,
     /// every look while awaiting 100: (window length offered, consumed, can_keep_await_100 afterwards)
     pub await_log: Vec<(usize, usize, bool)>,
     /// every try_response call: (window length offered, consumed, status if a response came back)
@@ -510,6 +511,7 @@ impl<'a> Driver<'a> {
             max_steps,
             finished_body_write_calls: 0,
             direct_writes: 0,
+            looked_after_100: false,
             await_log: vec![],
             response_log: vec![],
             body_start: 0,
@@ -654,6 +656,26 @@ impl<'a> Driver<'a> {
                 } else {
                     !f.can_keep_await_100()
                 };
+                if decided && self.sched.await_by_return && self.consumed_in_await > 0 && !self.looked_after_100 {
+                    // this caller looks once more although the 100 it waited for has been consumed: whatever
+                    // stands in the window now (the response to come) is none of try_read_100's business
+                    self.looked_after_100 = true;
+                    self.arrive(17);
+                    let window = &self.server[self.consumed..self.arrived];
+                    rec.call();
+                    let r = f.try_read_100(window);
+                    rec.ev(|| format!("Await100.try_read_100({:?}) after the 100 was consumed -> {:?}", esc_short(window, 60), r));
+                    match r {
+                        Ok(0) => {}
+                        other => {
+                            self.flow = AnyFlow::Await100(f);
+                            return Step::Failed {
+                                call: "Await100::try_read_100 (after the 100 was consumed)",
+                                err: format!("{:?} - the wait is over, nothing is left to consume or to refuse", other),
+                            };
+                        }
+                    }
+                }
                 if decided || give_up {
                     if !f.can_keep_await_100() && self.await_decided_at.is_none() {
                         self.await_decided_at = Some(self.arrived);
@@ -1142,12 +1164,26 @@ pub fn body_sender(cl: Option<u64>, explicit_te: bool, use_call: bool) -> Result
 /// `variant` bit 0: explicit Host header; bit 1 (Flow only): a GET turned into a body request by
 /// send_body_despite_method() (default framing = chunked unless `cl`); bit 3 (Flow only): the request
 /// carries Expect: 100-continue and the caller gives up waiting; bit 4 (Flow only): Expect and the
-/// server's 100 Continue is read before the body
-pub fn body_sender_ex(cl: Option<u64>, explicit_te: bool, use_call: bool, variant: u8) -> Result<BodySender, String> {
+/// server's 100 Continue is read before the body; bits 5..6: the body-less method of bit 1; bit 7: `Chunked`;
+/// bit 8 (Flow only): one more write of the head after it is complete; bit 9: an HTTP/1.0 request; bit 10
+/// (Flow only, with bit 1 and no `cl`): the original carries `transfer-encoding: gzip` (not a framing
+/// header: the body defaults to chunked); bit 11 (Flow only): the flow is produced by a redirect - a POST
+/// sent with `transfer-encoding: chunked` and answered 303 - and the GET that follows gets its body
+/// through the escape hatch, framed by a content-length added in Prepare when `cl` is given
+pub fn body_sender_ex(cl: Option<u64>, explicit_te: bool, use_call: bool, variant: u16) -> Result<BodySender, String> {
+    if variant & 2048 != 0 && !use_call {
+        return redirected_body_sender(cl);
+    }
     let despite = variant & 2 != 0 && !use_call;
     // bits 5..6: which body-less method the escape hatch is used on
     let despite_method = ["GET", "TRACE", "DELETE", "OPTIONS"][(variant >> 5) as usize & 3];
     let mut b = Request::builder().method(if despite { despite_method } else { "POST" }).uri("http://h.test/up");
+    if variant & 512 != 0 && (!despite || matches!(despite_method, "GET")) {
+        b = b.version(Version::HTTP_10);
+    }
+    if variant & 1024 != 0 && despite && cl.is_none() && !explicit_te {
+        b = b.header("transfer-encoding", "gzip");
+    }
     if variant & 1 != 0 {
         b = b.header("host", "h.test");
     }
@@ -1181,6 +1217,14 @@ pub fn body_sender_ex(cl: Option<u64>, explicit_te: bool, use_call: bool, varian
         }
         let mut f = p.proceed();
         f.write(&mut buf).map_err(|e| format!("{:?}", e))?;
+        if variant & 256 != 0 {
+            // a caller that writes "until nothing comes out": the head is complete, nothing may follow
+            let mut more = [0u8; 64];
+            match f.write(&mut more) {
+                Ok(0) => {}
+                other => return Err(format!("write after the complete head -> {:?}", other)),
+            }
+        }
         match f.proceed().map_err(|e| format!("{:?}", e))? {
             Some(SendRequestResult::SendBody(s)) if !expect => Ok(BodySender::Flow(s)),
             Some(SendRequestResult::Await100(mut a)) if expect => {
@@ -1197,6 +1241,31 @@ pub fn body_sender_ex(cl: Option<u64>, explicit_te: bool, use_call: bool, varian
             }
             _ => Err("expected SendBody after the head".into()),
         }
+    }
+}
+
+/// See bit 11 of `body_sender_ex`.
+fn redirected_body_sender(cl: Option<u64>) -> Result<BodySender, String> {
+    let first = ReqCfg::new("POST", "http://h.test/first").h("transfer-encoding", b"chunked").h("cookie", b"a=b");
+    let (end, ..) = fast_to_recv(&first).and_then(|f| fast_response(f, b"HTTP/1.1 303 See Other\r\nLocation: /up\r\nContent-Length: 0\r\n\r\n"))?;
+    let mut r = match end {
+        End::Redirect(r) => r,
+        End::Cleanup(_) => return Err("303 did not reach the redirect state".into()),
+    };
+    let mut p = match r.as_new_flow(ureq_proto::client::flow::RedirectAuthHeaders::Never) {
+        Ok(Some(p)) => p,
+        other => return Err(format!("as_new_flow: {:?}", other.map(|o| o.is_some()))),
+    };
+    p.send_body_despite_method();
+    if let Some(n) = cl {
+        p.header("content-length", n.to_string()).map_err(|e| format!("{:?}", e))?;
+    }
+    let mut f = p.proceed();
+    let mut buf = [0u8; 256];
+    f.write(&mut buf).map_err(|e| format!("redirected head: {:?}", e))?;
+    match f.proceed().map_err(|e| format!("{:?}", e))? {
+        Some(SendRequestResult::SendBody(s)) => Ok(BodySender::Flow(s)),
+        _ => Err("expected SendBody on the redirected flow".into()),
     }
 }
 
